@@ -13,7 +13,7 @@ use crate::svm::{addr, meta, process, Acc, Db, TxError};
 use crate::orders::Side;
 use crate::world::{self, ix, sys, W};
 
-const ROLES: [&str; 9] = ["MARKET_KEEPER", "ORDER_KEEPER", "ORACLE_CONTROLLER", "PRICE_KEEPER", "FEATURE_KEEPER", "CONFIG_KEEPER", "GT_CONTROLLER", "MARKET_CONFIG_KEEPER", "MIGRATION_KEEPER"];
+const ROLES: [&str; 13] = ["MARKET_KEEPER", "ORDER_KEEPER", "ORACLE_CONTROLLER", "PRICE_KEEPER", "FEATURE_KEEPER", "CONFIG_KEEPER", "GT_CONTROLLER", "MARKET_CONFIG_KEEPER", "MIGRATION_KEEPER", "TREASURY_OWNER", "TREASURY_ADMIN", "TREASURY_KEEPER", "TREASURY_WITHDRAWER"];
 
 /// who is entitled: the store admin, the fee receiver, or the holder(s) of some role(s)
 #[derive(Clone, Debug)]
@@ -153,6 +153,22 @@ fn probes() -> Vec<Probe> {
     p!("glv:update_glv_market_config", Role("MARKET_KEEPER"), |w, _db, by| (ix(w.pid, a::UpdateGlvMarketConfig { authority: by, store: w.store, glv: crate::glvchk::glv_keys(w, 0).0, market_token: w.m1.market_token }, i::UpdateGlvMarketConfig { max_amount: Some(5), max_value: None }), vec![by]));
     p!("glv:toggle_glv_market_flag", Role("MARKET_KEEPER"), |w, _db, by| (ix(w.pid, a::UpdateGlvMarketConfig { authority: by, store: w.store, glv: crate::glvchk::glv_keys(w, 0).0, market_token: w.m1.market_token }, i::ToggleGlvMarketFlag { flag: "is_deposit_allowed".into(), enable: true }), vec![by]));
     p!("glv:update_glv_config", Role("MARKET_KEEPER"), |w, _db, by| (ix(w.pid, a::UpdateGlvConfig { authority: by, store: w.store, glv: crate::glvchk::glv_keys(w, 0).0 }, i::UpdateGlvConfig { params: gmsol_store::states::glv::UpdateGlvParams { min_tokens_for_first_deposit: Some(7), ..Default::default() } }), vec![by]));
+    // ---- treasury administration (world: the treasury program with a config and a vault config of this store; role checks by CPI)
+    fn tconfig(w: &W) -> Pubkey {
+        Pubkey::find_program_address(&[gmsol_treasury::states::Config::SEED, w.store.as_ref()], &gmsol_treasury::ID).0
+    }
+    fn tvc(w: &W, index: u16) -> Pubkey {
+        Pubkey::find_program_address(&[gmsol_treasury::states::TreasuryVaultConfig::SEED, tconfig(w).as_ref(), &index.to_le_bytes()], &gmsol_treasury::ID).0
+    }
+    use gmsol_treasury::{accounts as ta, instruction as ti};
+    p!("treasury:set_gt_factor", Role("TREASURY_ADMIN"), |w, _db, by| (ix(gmsol_treasury::ID, ta::UpdateConfig { authority: by, store: w.store, config: tconfig(w), store_program: w.pid }, ti::SetGtFactor { factor: 7 }), vec![by]));
+    p!("treasury:set_buyback_factor", Role("TREASURY_ADMIN"), |w, _db, by| (ix(gmsol_treasury::ID, ta::UpdateConfig { authority: by, store: w.store, config: tconfig(w), store_program: w.pid }, ti::SetBuybackFactor { factor: 9 }), vec![by]));
+    p!("treasury:initialize_treasury_vault_config", Role("TREASURY_ADMIN"), |w, _db, by| (ix(gmsol_treasury::ID, ta::InitializeTreasuryVaultConfig { authority: by, store: w.store, config: tconfig(w), treasury_vault_config: tvc(w, 4), store_program: w.pid, system_program: sys() }, ti::InitializeTreasuryVaultConfig { index: 4 }), vec![by]));
+    p!("treasury:set_treasury_vault_config", Role("TREASURY_ADMIN"), |w, _db, by| (ix(gmsol_treasury::ID, ta::SetTreasuryVaultConfig { authority: by, store: w.store, config: tconfig(w), treasury_vault_config: tvc(w, 0), store_program: w.pid }, ti::SetTreasuryVaultConfig {}), vec![by]));
+    p!("treasury:transfer_receiver", Role("TREASURY_OWNER"), |w, _db, by| {
+        let receiver = Pubkey::find_program_address(&[gmsol_treasury::constants::RECEIVER_SEED, tconfig(w).as_ref()], &gmsol_treasury::ID).0;
+        (ix(gmsol_treasury::ID, ta::TransferReceiver { authority: by, store: w.store, config: tconfig(w), receiver, next_receiver: w.stranger, store_program: w.pid, system_program: sys() }, ti::TransferReceiver {}), vec![by])
+    });
     // ---- liquidity-provider program administration (world: the program initialised by the store admin)
     fn lp_gs() -> Pubkey {
         Pubkey::find_program_address(&[gmsol_liquidity_provider::GLOBAL_STATE_SEED], &gmsol_liquidity_provider::ID).0
@@ -319,7 +335,7 @@ fn handover(rep: &mut Report, cli: &Cli, db: &Db, w: &W) {
 pub fn run(cli: &Cli) -> Report {
     let mut rep = Report::new(cli, "exploration");
     rep.rule("E1 over the instruction x signer matrix through the real entrypoints: every probed privileged instruction (list in `instructions_probed`) is invoked with valid accounts by the entitled signer (must pass authorisation: success or a non-authorisation error) and by a stranger, the store admin, and the single-role holder of each of the nine other roles (must be rejected; the error code is recorded); the offices that move (store authority and fee receiver, each by nominate-then-accept) are explored as histories: E3 breadth-first over transfer_store_authority / accept_store_authority / transfer_receiver / accept_receiver by three actors to a fixpoint, where a signer is entitled iff it holds the office (to nominate) or the nomination (to accept) in the reference (the offices as the accepted instructions so far assigned them); an accepted signer that is not entitled is a violation, disagreements of the stored offices with the reference are counted; execute_deposit / execute_withdrawal / close by non-owners are covered by C23, market config updates by C20, the timelock instructions by C36; non-trivial = a rejection of an unauthorised signer was observed");
-    rep.assume("svm-lite commits nothing for a failed instruction (transaction atomicity, self-tested), hence 'leaves all accounts unchanged'; instructions not listed in `instructions_probed` (GLV actions and shifts, virtual inventory, ADL, treasury and competition administration) are outside the claim");
+    rep.assume("svm-lite commits nothing for a failed instruction (transaction atomicity, self-tested), hence 'leaves all accounts unchanged'; instructions not listed in `instructions_probed` (GLV actions and shifts, virtual inventory, ADL, the remaining treasury instructions and competition administration) are outside the claim");
     if let Some(rv) = &cli.replay {
         if rv.get("path").is_some() {
             let (db, w) = world::build();
@@ -381,6 +397,21 @@ pub fn run(cli: &Cli) -> Report {
         process(&mut d, &i, &[w.keeper]).expect("initialize_glv");
         d
     };
+    let db_treasury = {
+        let mut d = db.clone();
+        crate::svm::register(gmsol_treasury::ID, gmsol_treasury::entry, &mut d);
+        let (config, cbump) = Pubkey::find_program_address(&[gmsol_treasury::states::Config::SEED, w.store.as_ref()], &gmsol_treasury::ID);
+        let (receiver, rbump) = Pubkey::find_program_address(&[gmsol_treasury::constants::RECEIVER_SEED, config.as_ref()], &gmsol_treasury::ID);
+        // the store's fee receiver nominates the treasury's receiver PDA, the treasury's initialize_config accepts
+        let _ = (cbump, rbump);
+        process(&mut d, &ix(w.pid, gmsol_store::accounts::TransferReceiver { authority: w.admin, store: w.store, next_receiver: receiver }, gmsol_store::instruction::TransferReceiver {}), &[w.admin]).expect("transfer_receiver");
+        process(&mut d, &ix(gmsol_treasury::ID, gmsol_treasury::accounts::InitializeConfig { payer: w.admin, store: w.store, config, receiver, store_program: w.pid, system_program: sys() }, gmsol_treasury::instruction::InitializeConfig {}), &[w.admin]).expect("treasury initialize_config");
+        let (tvc, tbump) = Pubkey::find_program_address(&[gmsol_treasury::states::TreasuryVaultConfig::SEED, config.as_ref(), &0u16.to_le_bytes()], &gmsol_treasury::ID);
+        let mut t: gmsol_treasury::states::TreasuryVaultConfig = bytemuck::Zeroable::zeroed();
+        gmsol_treasury::verif::treasury_vault_config_init(&mut t, tbump, 0, &config);
+        d.set(tvc, Acc::new(5_000_000, gmsol_treasury::ID, world::zc(&t)));
+        d
+    };
     let db_lp = {
         let mut d = db.clone();
         crate::svm::register(gmsol_liquidity_provider::ID, gmsol_liquidity_provider::entry, &mut d);
@@ -396,7 +427,7 @@ pub fn run(cli: &Cli) -> Report {
         W::set_time(1_000);
         crate::svm::set_last_restart_slot(0);
         let p = &ps[pi];
-        let db = if p.name.starts_with("gt_") || p.name.starts_with("update_gt") { &db_gt } else if p.name.starts_with("order:") { &db_orders } else if p.name.starts_with("glv:") { &db_glv } else if p.name.starts_with("lp:") { &db_lp } else { &db };
+        let db = if p.name.starts_with("gt_") || p.name.starts_with("update_gt") { &db_gt } else if p.name.starts_with("order:") { &db_orders } else if p.name.starts_with("glv:") { &db_glv } else if p.name.starts_with("lp:") { &db_lp } else if p.name.starts_with("treasury:") { &db_treasury } else { &db };
         let entitled: Vec<Pubkey> = match &p.need {
             Need::Admin | Need::Receiver => vec![w.admin],
             Need::Role(r) => vec![holder(r)],
